@@ -457,6 +457,20 @@ def run(prop, tier, replay=None):
             rep.violation(dict(base, kind="work", observed=o["reads"], bound=bound,
                                what="number of read_word calls exceeds the input-length bound"))
             continue
+        # theorem C16_work_bounded is about `reads`, the model's count of read_word calls: the implementation's
+        # count must be that number exactly, and within the proved bound whenever PosWidth holds
+        if kind != "own-noncanonical" and "reads" in m:
+            rep.hist("work_compared", "pos-width" if m.get("pos_width") else "zero-width-under-dyn")
+            if o["reads"] != m["reads"]:
+                rep.cov["disagreements_checked"] += 1
+                rep.violation(dict(base, kind="work-correspondence", observed=o["reads"], model=m["reads"],
+                                   what="number of read_word calls differs from the model's `reads` (C16_work_bounded no longer "
+                                        "describes the decoder)"),
+                              no_input=not (m.get("pos_width") and o["reads"] > m["weight"] * (1 + 8 * len(bs))))
+                continue
+            if m.get("pos_width") and m["reads"] > m["weight"] * (1 + 8 * len(bs)):
+                rep.violation(dict(base, kind="model", what="Lean reads exceeds the proved bound: driver and theorem out of sync"),
+                              no_input=True)
         # ---- correspondence with the PyCodec model
         if "ok" in pm:
             exp = ("value", gen.canon_nan(d, ("struct", name), pm["ok"]))
